@@ -205,6 +205,11 @@ def floors(tier):
                     ("allow_duplicates", 30), ("restrict_configurations", 8), ("opt_skip_period", 50),
                     ("opt_skip_init_length", 50), ("no_fantasizing", 5)):
         f[f"rp_with_option:{name}"] = n * kk
+    f["rp_with_cached_gaussian"] = 10 * kk
+    f["rp_with_odd_num_init_candidates"] = 60 * kk
+    f["rp_initial_scoring:thompson_indep"] = 100 * kk
+    f["rp_initial_scoring:acq_func"] = 20 * kk
+    f["decided:random_generator_state_equal"] = 500 * kk
     f["rp_below_num_init_random_after_first_model_based_suggestion:gpclone"] = 3 * kk
     f["rp_transfer_active_task_below_num_init_random:gpclone"] = 6 * kk
     f["decided:suggestion_equal"] = 8000 * k
@@ -430,10 +435,10 @@ def expand(spec):
             "num_init_random": rng.randint(1, 3),
             "opt_maxiter": rng.randint(2, 5),
             "opt_nstarts": 1,
-            "num_init_candidates": rng.choice([8, 16, 30]),
+            "num_init_candidates": rng.choice([5, 7, 8, 11, 16, 25, 30, 50]),
             "opt_skip_init_length": rng.choice([1, 2, 150]),
             "opt_skip_period": rng.choice([1, 2, 3]),
-            "num_fantasy_samples": rng.choice([2, 4]),
+            "num_fantasy_samples": rng.choice([1, 2, 3, 4]),
         }
         # The local (L-BFGS) optimisation of the acquisition function is stateless, hence irrelevant for restore, but it
         # makes suggestions ill-conditioned: on a flat acquisition surface memory-layout dependent last-bit noise of the
@@ -463,8 +468,20 @@ def expand(spec):
             p["n_workers"] = rng.randint(1, 2)
         p["rc"] = kind in ("gp_fifo", "gp_mf", "gp_mobster") and rng.random() < 0.25
         p["rc_n"] = rng.randint(12, 30)
+        # Thompson-sampling scoring (default) draws one normal per scored candidate from the searcher's generator: an odd
+        # number leaves a cached Gaussian in the legacy RandomState; acq_func scoring draws none
+        if rng.random() < 0.3:
+            p["gp"]["initial_scoring"] = "acq_func"
+        if engine == "gpclone" and rng.random() < 0.2 and not spec.get("transfer"):
+            p["space"] = gen.small_space(rng, finite=True, with_const=False, ordinal_kinds=("equal",))
         v = spec.get("variant")
         if v is not None:
+            p["gp"]["num_init_candidates"] = [5, 8, 7, 16, 11, 50, 25, 30][v % 8]
+            # Thompson scoring draws (#candidates x #fantasy columns) normals: odd x odd leaves a cached Gaussian
+            p["gp"]["num_fantasy_samples"] = [3, 2, 1, 4][v % 4]
+            p["gp"].pop("initial_scoring", None)
+            if v % 4 == 3:
+                p["gp"]["initial_scoring"] = "acq_func"
             # enumerated (process pairs): every documented option is present in every run
             p["gp"]["opt_skip_period"] = [1, 2, 3][v % 3]
             p["gp"]["opt_skip_init_length"] = [150, 1, 2][(v // 2) % 3]
@@ -1290,7 +1307,10 @@ def run_clone(spec, o):
     rng = random.Random(seed + 41)
     sample, all_points = _sample_points(p, rng, len(order), 40)
 
+    rng_at_snapshot = []
+
     def snap(sched):
+        rng_at_snapshot.append(sched.searcher.random_state.get_state())
         return pickle.dumps(sched.searcher.get_state())
 
     vt2, port2, snaps, sched2, rec2 = _drive(p, seed, order, snapshot_fn=snap, sample=sample, all_points=all_points,
@@ -1305,7 +1325,7 @@ def run_clone(spec, o):
         else:
             o.inconclusive("history_not_reproducible")
     tmpl_sched = None
-    for s in snaps:
+    for s_i, s in enumerate(snaps):
         idx = s["ctx_idx"]
         if d12 is not None and idx > d12:
             o.count("restore_points_dropped_after_run2_difference")
@@ -1336,6 +1356,14 @@ def run_clone(spec, o):
                       {"k": s["k"], "error": repr(e)[:300], "template": p["template"], "flags": flags})
             continue
         differs_in = _immutable_diff(kind, rec1.searcher, clone)
+        try:
+            rdiff = _rng_state_diff(rng_at_snapshot[s_i], clone.random_state.get_state())
+        except Exception as e:  # noqa: BLE001
+            rdiff = ["unavailable:" + type(e).__name__]
+        o.count("decided:random_generator_state_equal")
+        if rdiff:
+            o.violate("random_generator_state", f"clone:{kind}:random_generator_state_differs_after_restore:" + ",".join(rdiff),
+                      {"options": flags, "restore_point_k": s["k"], "components": rdiff, "template": p["template"]})
         configured = any(e[0] == "configure_scheduler" for e in slog1[:idx])
         if configured:
             r = _searcher_call(clone, tmpl_sched, "configure_scheduler", [[], {}])
@@ -1409,9 +1437,14 @@ def _child_p1(req):
     port = RecPort(sched)
     vt = OrderVTuner(port, vtuner_params(p, seed, p.get("order")), value_fn, extra_fn)
     nir = (p.get("gp") or {}).get("num_init_random", 3)
-    seen_model_based, below, transfer_below, step = False, [], [], 0
+    seen_model_based, below, transfer_below, gauss, step = False, [], [], [], 0
     while vt.n_events < vt.p["max_events"]:
         pr = _phase_probe(sched.searcher)
+        try:
+            if sched.searcher.random_state.get_state()[3]:
+                gauss.append(step)  # the legacy generator holds a cached Gaussian (odd number of normal draws so far)
+        except Exception:  # noqa: BLE001
+            pass
         if pr is not None:
             if pr[0] >= nir and pr[2]:
                 seen_model_based = True
@@ -1423,7 +1456,7 @@ def _child_p1(req):
             break
         step += 1
     return {"log": _jlog(port.log), "order": list(vt.actions), "events": _jlog(vt.events), "raised": _jlog(vt.raised),
-            "below_steps": below, "transfer_below_steps": transfer_below}
+            "below_steps": below, "transfer_below_steps": transfer_below, "cached_gaussian_steps": gauss}
 
 
 def _params_diag(saved, now):
@@ -1483,8 +1516,14 @@ def _restore_in_scheduler(sched, info, p=None, seed=None):
         template = build(p, seed)[0].searcher
         np.random.set_state(saved)
     fp0 = _gp_rng_fingerprint(searcher)
+    rs0 = searcher.random_state.get_state()
+    info["has_gauss"] = int(rs0[3])
     info["stage"] = "clone_from_state"
     clone = template.clone_from_state(state)
+    try:
+        info["rng_diff"] = _rng_state_diff(rs0, clone.random_state.get_state())
+    except Exception as e:  # noqa: BLE001
+        info["rng_diff"] = ["unavailable:" + type(e).__name__]
     fp1 = _gp_rng_fingerprint(clone)
     info["gp_rng"] = "unavailable" if fp0 is None or fp1 is None else ("same" if fp0 == fp1 else "differs")
     sched._searcher = clone
@@ -1521,6 +1560,34 @@ def _param_roundtrip_in_place(sched, info):
     s_ = sched.searcher
     if getattr(sched, "_searcher_initialized", False):
         s_.set_params(s_.model_parameters())
+
+
+def _rng_state_diff(a, b):
+    """Direct clause: the random generator of a restored searcher is in the same state as the snapshotted one's.
+    Component-wise comparison of RandomState.get_state() (name, key vector, position, has_gauss, cached_gaussian; the
+    cached value only counts if one is flagged), then a few draws of each kind from copies of both."""
+    import numpy as np
+
+    names = ["name", "key", "pos", "has_gauss", "cached_gaussian"]
+    diff = []
+    for n_, x, y in zip(names, a, b):
+        if n_ == "key":
+            same = np.array_equal(np.asarray(x), np.asarray(y))
+        elif n_ == "cached_gaussian":
+            same = (not a[3] and not b[3]) or float(x) == float(y)
+        else:
+            same = x == y
+        if not same:
+            diff.append(n_)
+    ra, rb = np.random.RandomState(0), np.random.RandomState(0)
+    ra.set_state(a)
+    rb.set_state(b)
+    for kind_, draw in (("normal", lambda r: r.normal(size=3)), ("uniform", lambda r: r.uniform(size=3)),
+                        ("randint", lambda r: r.randint(0, 1000, size=3)), ("choice", lambda r: r.choice(17, size=3))):
+        if not np.array_equal(draw(ra), draw(rb)):
+            diff.append("draw_" + kind_)
+            break
+    return diff
 
 
 def _gp_options(p):
@@ -1711,6 +1778,8 @@ def run_gpclone(spec, o):
         # boundaries where the searcher has fallen below num_init_random again / the active task is still below it
         points |= set([k for k in r1.get("below_steps", []) if k < n_steps][:6])
         points |= set([k for k in r1.get("transfer_below_steps", []) if k < n_steps][:4])
+        cg = [k for k in r1.get("cached_gaussian_steps", []) if k < n_steps]
+        points |= set(cg[:2] + cg[-3:])  # boundaries at which the searcher's generator holds a cached Gaussian
         rest = [k for k in range(1, n_steps) if k not in points]
         points |= set(rng.sample(rest, max(0, many - len(points))))
         points = sorted(points)
@@ -1739,6 +1808,17 @@ def run_gpclone(spec, o):
             continue
         d = pt["d"]
         o.count(f"rp:{fac}")
+        o.count("decided:random_generator_state_equal")
+        if pt.get("has_gauss"):
+            o.count("rp_with_cached_gaussian")
+        if (p.get("gp") or {}).get("num_init_candidates", 0) % 2 == 1:
+            o.count("rp_with_odd_num_init_candidates")
+        o.count("rp_initial_scoring:" + ("acq_func" if p.get("rc") else str((p.get("gp") or {}).get("initial_scoring", "thompson_indep"))))
+        if pt.get("rng_diff"):
+            o.violate("random_generator_state",
+                      f"gpclone:{kind}:random_generator_state_differs_after_restore:" + ",".join(pt["rng_diff"]),
+                      {"restore_point_k": k, "components": pt["rng_diff"], "cached_gaussian_at_snapshot": pt.get("has_gauss"),
+                       "gp_options": p.get("gp"), "template": p["template"]})
         o.count(f"restored_params:{pt.get('params')}")
         o.count(f"gp_model_rng_after_restore:{pt.get('gp_rng')}")
         for name in _gp_options(p):
